@@ -201,6 +201,7 @@ type ctx struct {
 	allocated     []term
 	allocFrom     int
 	lastStore     map[string][2]term
+	forks         int
 	lastStoreOf   map[string]string // fresh value symbol -> array version it was stored into (setter recognition)
 	siteHit       map[string]bool
 	cbInvHit      map[string]bool
@@ -1416,6 +1417,10 @@ func (x *ctx) run(st *state, fr *frame, b *ssa.BasicBlock, idx int, prev *ssa.Ba
 				}
 				ns, nfr := st, fr
 				if live > 1 {
+					x.forks++
+					if x.forks > 60000 {
+						x.fail("exploration budget exceeded in %s (more than 60000 branch forks while executing %s): a loop without an invariant in an inlined helper, or a path explosion", x.fn, fr.fn)
+					}
 					ns, nfr = st.clone(), fr.clone()
 				}
 				ns.assume(cond)
